@@ -67,7 +67,7 @@ func Check_WellFormed() {
 // Check_RegistrySweep: every element of the loaded registries (IANA, reverse,
 // Antrea, user enterprise) as a one-field template with a symbolic value.
 func Check_RegistrySweep() {
-	ents := []uint32{registry.IANAEnterpriseID, registry.IANAReversedEnterpriseID, registry.AntreaEnterpriseID, common.UserEnterprise}
+	ents := []uint32{registry.IANAEnterpriseID, registry.IANAReversedEnterpriseID, registry.AntreaEnterpriseID, common.UserEnterprise, common.UserEnterpriseBig}
 	ent := ents[sx.Choose("enterprise", len(ents))]
 	maxID := 520
 	id := uint16(sx.Range("elementID", 0, maxID))
